@@ -45,4 +45,144 @@ theorem concP_congr {M : Nat} {s s' : Sys} {olds : List Nat} (h : ConcP M s olds
   have := h.oldok w hwo
   simpa [OldOK, insW, hw] using this
 
+theorem frameP_push (s : Sys) (olds : List Nat) (c : Nat) (x : Tok) (hc : c ∉ olds) : FrameP s (pushSw s c x) olds := by
+  refine ⟨rfl, rfl, rfl, rfl, rfl, rfl, rfl, rfl, ?_, ?_, fun u hu => wk_pushSw_other s x (fun e => hc (e ▸ hu))⟩
+  · intro u
+    by_cases e : u = c
+    · subst e; rw [wk_pushSw_same]
+    · rw [wk_pushSw_other s x e]
+  · intro u
+    by_cases e : u = c
+    · subst e; rw [wk_pushSw_same]
+    · rw [wk_pushSw_other s x e]
+
+theorem frameP_select (s : Sys) (olds : List Nat) (w : Nat) (hf : s.wk w = {}) (hw : w ∉ olds) :
+    FrameP s (selectS s w) olds := by
+  refine ⟨rfl, rfl, rfl, rfl, rfl, rfl, rfl, rfl, ?_, ?_, fun u hu => wk_selectS_other s (fun e => hw (e ▸ hu))⟩
+  · intro u
+    by_cases e : u = w
+    · subst e; rw [wk_selectS_same s u hf, hf]
+    · rw [wk_selectS_other s e]
+  · intro u
+    by_cases e : u = w
+    · subst e; rw [wk_selectS_same s u hf, hf]
+    · rw [wk_selectS_other s e]
+
+/-- one forwarded data token -/
+theorem emit1C {M : Nat} {s : Sys} {olds : List Nat} {gw tc : List Tok} {g : Bool} {lks : List (Option Nat)}
+    (hr : CurRep M s gw tc g) (hp : ConcP M s olds) (hl : FreshLks olds lks) (x : Tok) (hx : x.kind = .data)
+    (hpx : x.part = 0) (hlv : s.pp.hwm ≤ x.retries) :
+    ∃ kept, (kept = [] ∨ kept = [x]) ∧
+      CurRep M (ppAct s lks (emitA x)).1 (gw ++ if g then kept else []) (tc ++ if g then [] else bumpF M kept) g ∧
+      ConcP M (ppAct s lks (emitA x)).1 olds ∧ FrameP s (ppAct s lks (emitA x)).1 olds ∧
+      FreshLks olds (ppAct s lks (emitA x)).2 ∧
+      ((ppAct s lks (emitA x)).1.cur = none → kept = [] ∧ s.cur = none) := by
+  rcases Option.eq_none_or_eq_some s.cur with hc | ⟨c, hc⟩
+  rotate_left
+  · have he : ppAct s lks (emitA x) = (pushSw s c x, lks) := by
+      simp [ppAct, emitA, hc, pushSw, mkTok_eq x hx hpx]
+    rw [he]
+    refine ⟨[x], Or.inr rfl, curRep_push hr c hc x hx, concP_push hp c hc x hx hpx hlv,
+      frameP_push s olds c x (hp.curNo c hc), hl, ?_⟩
+    intro hn; simp [pushSw, hc] at hn
+  · have hg : gw = [] ∧ tc = [] ∧ g = true := by
+      cases hr with
+      | none => exact ⟨rfl, rfl, rfl⟩
+      | closed c h1 => rw [hc] at h1; cases h1
+      | normal c mk G h1 => rw [hc] at h1; cases h1
+      | failed c h1 => rw [hc] at h1; cases h1
+    obtain ⟨rfl, rfl, rfl⟩ := hg
+    have hfail : ∀ (l0 l1 : List (Option Nat)), ppAct s l0 (emitA x) = ({ s with errs := s.errs ++ [x.id] }, l1) →
+        FreshLks olds l1 →
+        ∃ kept, (kept = [] ∨ kept = [x]) ∧
+          CurRep M (ppAct s l0 (emitA x)).1 ([] ++ if true then kept else []) ([] ++ if true then [] else bumpF M kept) true ∧
+          ConcP M (ppAct s l0 (emitA x)).1 olds ∧ FrameP s (ppAct s l0 (emitA x)).1 olds ∧
+          FreshLks olds (ppAct s l0 (emitA x)).2 ∧
+          ((ppAct s l0 (emitA x)).1.cur = none → kept = [] ∧ s.cur = none) := by
+      intro l0 l1 he hok
+      rw [he]
+      refine ⟨[], Or.inl rfl, curRep_congr hr rfl rfl, concP_congr hp rfl rfl rfl rfl rfl rfl rfl,
+        ⟨rfl, rfl, rfl, rfl, rfl, rfl, rfl, rfl, fun _ => rfl, fun _ => rfl, fun _ _ => rfl⟩, hok, fun _ => ⟨rfl, hc⟩⟩
+    cases lks with
+    | nil => exact hfail [] [] (by simp [ppAct, emitA, hc]) (fun _ h => by cases h)
+    | cons l0 r =>
+      have hr' : FreshLks olds r := fun w hw => hl w (List.mem_cons_of_mem _ hw)
+      cases l0 with
+      | none => exact hfail (none :: r) r (by simp [ppAct, emitA, hc]) hr'
+      | some w =>
+        have hwo : w ∉ olds := hl w (List.mem_cons_self ..)
+        have hf : s.wk w = {} := hp.fresh w hwo (by rw [hc]; simp)
+        have he : ppAct s (some w :: r) (emitA x) = (pushSw (selectS s w) w x, r) := by
+          simp [ppAct, emitA, hc, pushSw, selectS, mkTok_eq x hx hpx]
+        rw [he]
+        have h1 := curRep_select (M := M) w hf
+        have h2 := concP_select hp hc w hwo
+        have h3 := curRep_push h1 w rfl x hx
+        refine ⟨[x], Or.inr rfl, h3, concP_push h2 w rfl x hx hpx hlv,
+          (frameP_select s olds w hf hwo).trans (frameP_push _ olds w x hwo), hr', ?_⟩
+        intro hn; simp [pushSw, selectS] at hn
+
+theorem emitsLC {M : Nat} {olds : List Nat} (E : List Tok) (hE : ∀ x ∈ E, x.kind = .data ∧ x.part = 0) :
+    ∀ {s : Sys} {gw tc : List Tok} {g : Bool} {lks : List (Option Nat)}, CurRep M s gw tc g → ConcP M s olds →
+      FreshLks olds lks → (∀ x ∈ E, s.pp.hwm ≤ x.retries) →
+      ∃ kept, kept.Sublist E ∧
+        CurRep M (ppActs s lks (E.map emitA)) (gw ++ if g then kept else []) (tc ++ if g then [] else bumpF M kept) g ∧
+        ConcP M (ppActs s lks (E.map emitA)) olds ∧ FrameP s (ppActs s lks (E.map emitA)) olds ∧
+        ((ppActs s lks (E.map emitA)).cur = none → kept = [] ∧ s.cur = none) := by
+  induction E with
+  | nil =>
+    intro s gw tc g lks hr hp _ _
+    refine ⟨[], List.Sublist.refl _, ?_, hp, FrameP.refl s olds, fun hn => ⟨rfl, hn⟩⟩
+    cases g <;> simpa [ppActs, bumpF_nil] using hr
+  | cons x E' ih =>
+    intro s gw tc g lks hr hp hl hlv
+    obtain ⟨hx, hpx⟩ := hE x (List.mem_cons_self ..)
+    obtain ⟨k1, hk1, r1, p1, f1, l1, c1⟩ := emit1C hr hp hl x hx hpx (hlv x (List.mem_cons_self ..))
+    obtain ⟨k2, hk2, r2, p2, f2, c2⟩ := ih (fun y hy => hE y (List.mem_cons_of_mem _ hy)) r1 p1 l1
+      (fun y hy => by rw [f1.pp]; exact hlv y (List.mem_cons_of_mem _ hy))
+    refine ⟨k1 ++ k2, ?_, ?_, p2, f1.trans f2, ?_⟩
+    · rcases hk1 with rfl | rfl
+      · simpa using hk2.trans (List.sublist_cons_self x E')
+      · simpa using hk2.cons_cons x
+    · have : ppActs s lks ((x :: E').map emitA) =
+          ppActs (ppAct s lks (emitA x)).1 (ppAct s lks (emitA x)).2 (E'.map emitA) := rfl
+      rw [this]
+      cases g <;> simpa [bumpF_append, List.append_assoc] using r2
+    · intro hn
+      have : ppActs s lks ((x :: E').map emitA) =
+          ppActs (ppAct s lks (emitA x)).1 (ppAct s lks (emitA x)).2 (E'.map emitA) := rfl
+      rw [this] at hn
+      obtain ⟨e2, e3⟩ := c2 hn
+      obtain ⟨e1, e4⟩ := c1 e3
+      exact ⟨by rw [e1, e2]; rfl, e4⟩
+
+/-- assembly: from a state `s1` (after taking the head of pp.input and possibly leaving the current worker) the
+    partition producer forwards the data tokens `E` -/
+theorem goodC_pp_emits {M : Nat} {s s1 : Sys} {olds olds1 : List Nat} {v : View} (h : GoodC M s olds v)
+    {gw1 tc1 : List Tok} {g1 : Bool} (hr1 : CurRep M s1 gw1 tc1 g1) (hp1 : ConcP M s1 olds1)
+    (e_next : s1.next = s.next) (e_log : s1.log = s.log) (e_succ : s1.succ = s.succ)
+    (e_bp : ∀ u, (s1.wk u).bp = (s.wk u).bp) (e_pend : ∀ u, (s1.wk u).pend = (s.wk u).pend)
+    (E : List Tok) (hE : ∀ x ∈ E, x.kind = .data ∧ x.part = 0) (hlv : ∀ x ∈ E, s1.pp.hwm ≤ x.retries)
+    (lks : List (Option Nat)) (hl : FreshLks olds1 lks)
+    (hV : ∀ kept, kept.Sublist E →
+      VInv (pushV M ⟨s1.pp, gw1, s1.pq ++ s1.dq ++ s1.ret ++ (lanes M s1 olds1 ++ tc1), g1⟩ kept) ∧
+      (∀ a, LiveId (pushV M ⟨s1.pp, gw1, s1.pq ++ s1.dq ++ s1.ret ++ (lanes M s1 olds1 ++ tc1), g1⟩ kept) a →
+        LiveId v a))
+    (hcap : s1.cur = none → ∀ x ∈ data (s1.pq ++ s1.dq ++ s1.ret ++ (lanes M s1 olds1 ++ tc1)), x.retries ≤ s1.pp.hwm) :
+    ∃ v', GoodC M (ppActs s1 lks (E.map emitA)) olds1 v' := by
+  obtain ⟨kept, hk, r2, p2, f, c2⟩ := emitsLC E hE hr1 hp1 hl hlv
+  obtain ⟨hvi, hlive⟩ := hV kept hk
+  refine ⟨_, ⟨_, _, _, r2, ?_⟩, hvi, concC_of_P p2 (by simp [pushV, f.pp]) ?_, ?_⟩
+  · simp only [pushV]
+    rw [f.pp, f.pq, f.dq, f.ret, lanes_other olds1 f.olds]
+    cases g1 <;> simp [List.append_assoc]
+  · intro hn
+    obtain ⟨e1, e2⟩ := c2 hn
+    rw [e1, pushV_nil]
+    exact hcap e2
+  · refine logC_same h.log (f.next.trans e_next) (f.log.trans e_log) (f.succ.trans e_succ) hlive ?_
+    intro u vd base hp
+    rw [f.pend u, e_pend u] at hp
+    exact ⟨hp, by rw [f.bp u, e_bp u]⟩
+
 end Lemmas.C02sys
